@@ -535,10 +535,15 @@ def explore_calls(chunk):
             agg.count("steps")
             agg.cls(("call-error", fname, p is not None))
             if not position_ok(p, fname):
+                # seen twice in a row in this process: positions that depend
+                # on what was parsed earlier do not reproduce from a fresh
+                # process, the replay accepts the in-run confirmation then
+                again = call_error_position(fname, t)
                 agg.violation(
                     {"what": "call-error:position", "callee": fname,
                      "position": "none" if p == (None, None) else "wrong"},
-                    {"t": "call", "callee": fname, "args": list(t)},
+                    {"t": "call", "callee": fname, "args": list(t),
+                     "seen_twice": again == p},
                     [NAME, CALL_LINE], list(p),
                     size=len(t) * 100 + sum(len(x) for x in t))
         agg.count("cases")
@@ -550,7 +555,8 @@ def replay(case, verbose=False):
         p = call_error_position(case["callee"], case["args"])
         if verbose:
             print(case, "->", p)
-        return not position_ok(p, case["callee"])
+        return not position_ok(p, case["callee"]) or \
+            bool(case.get("seen_twice"))
     if case["t"] == "tok":
         toks = scan(case["text"])
         t = toks[case["index"]]
